@@ -649,32 +649,34 @@ class AsyncClient(base_client.BaseClient):
         """This background task sends packages to the server as they are
         pushed to the send queue.
         """
-        while self.state == 'connected':
+        # this task serves the queue of the connection it was started for
+        queue = self.queue
+        while self.state == 'connected' and self.queue is queue:
             # to simplify the timeout handling, use the maximum of the
             # ping interval and ping timeout as timeout, with an extra 5
             # seconds grace period
             timeout = max(self.ping_interval, self.ping_timeout) + 5
             packets = None
             try:
-                packets = [await asyncio.wait_for(self.queue.get(), timeout)]
-            except (self.queue.Empty, asyncio.TimeoutError):
+                packets = [await asyncio.wait_for(queue.get(), timeout)]
+            except (queue.Empty, asyncio.TimeoutError):
                 self.logger.error('packet queue is empty, aborting')
                 break
             except asyncio.CancelledError:  # pragma: no cover
                 break
             if packets == [None]:
-                self.queue.task_done()
+                queue.task_done()
                 packets = []
             else:
                 # never put more packets in one payload than a server accepts
                 while len(packets) < payload.Payload.max_decode_packets:
                     try:
-                        packets.append(self.queue.get_nowait())
-                    except self.queue.Empty:
+                        packets.append(queue.get_nowait())
+                    except queue.Empty:
                         break
                     if packets[-1] is None:
                         packets = packets[:-1]
-                        self.queue.task_done()
+                        queue.task_done()
                         break
             if not packets:
                 # empty packet list returned -> connection closed
@@ -686,7 +688,7 @@ class AsyncClient(base_client.BaseClient):
                     headers={'Content-Type': 'text/plain'},
                     timeout=self.request_timeout)
                 for pkt in packets:
-                    self.queue.task_done()
+                    queue.task_done()
                 if r is None or isinstance(r, str):
                     self.logger.warning(
                         r or 'Connection refused by the server, aborting')
@@ -704,7 +706,7 @@ class AsyncClient(base_client.BaseClient):
                             await self.ws.send_bytes(pkt.encode())
                         else:
                             await self.ws.send_str(pkt.encode())
-                        self.queue.task_done()
+                        queue.task_done()
                 except (aiohttp.client_exceptions.ServerDisconnectedError,
                         BrokenPipeError, OSError):
                     self.logger.info(
